@@ -57,9 +57,9 @@ def expected_injection(dev, currents, current_units):
     em = mesh.edge_mesh
     inj = np.zeros(len(mesh.sites))
     totals = {}
-    for t in dev.terminal_info():
-        I = float(currents.get(t.name, 0.0))
-        bidx = em.boundary_edge_indices[t.boundary_edge_indices]
+    for name, t in zoo.independent_terminals(dev).items():
+        I = float(currents.get(name, 0.0))
+        bidx = t["boundary_edges"]
         ell = em.edge_lengths[bidx]  # dimensionless
         L_phys_m = ell.sum() * xi  # metres
         J_t = 4.0 * (I * cu) / (L_phys_m * K0)  # dimensionless sheet current density
@@ -67,7 +67,7 @@ def expected_injection(dev, currents, current_units):
             i, j = em.edges[b]
             inj[i] += l / 2 * J_t
             inj[j] += l / 2 * J_t
-        totals[t.name] = (I, ell.sum() * J_t)
+        totals[name] = (I, ell.sum() * J_t)
     return inj, totals
 
 
@@ -88,15 +88,14 @@ def check_frame(ctx, dev, D, Js, Jn, currents, current_units, tag, fail):
     # terminal totals in the user's units
     K0, xi, to_m = K0_SI(dev)
     cu = dev.ureg(current_units).to("A").magnitude
-    for t in dev.terminal_info():
+    for name, t in zoo.independent_terminals(dev).items():
         sites = np.zeros(len(a), dtype=bool)
-        bidx = mesh.edge_mesh.boundary_edge_indices[t.boundary_edge_indices]
-        sites[mesh.edge_mesh.edges[bidx].ravel()] = True
+        sites[mesh.edge_mesh.edges[t["boundary_edges"]].ravel()] = True
         I_meas = out[sites].sum() * xi * K0 / 4 / cu
-        I_req = float(currents.get(t.name, 0.0))
+        I_req = float(currents.get(name, 0.0))
         sc_ = max(abs(I_req), max(abs(float(v)) for v in currents.values()) if currents else 0.0, 1e-30)
         if abs(I_meas - I_req) > 1e-8 * sc_ + 1e-12:
-            fail("terminal-total", f"terminal {t.name}: {I_meas:.9g} {current_units} enters, {I_req:.9g} requested", terminal=t.name, measured=float(I_meas), requested=I_req, **tag)
+            fail("terminal-total", f"terminal {name}: {I_meas:.9g} {current_units} enters, {I_req:.9g} requested", terminal=name, measured=float(I_meas), requested=I_req, **tag)
             return False
     return True
 
